@@ -224,6 +224,9 @@ def lifetime_probes():
     out.append(("life:nested_loops_call", HDR + "def show(v):\n    t = v * 10\n    db.Mode = t + 1\n\ndef grid(n):\n    for row in range(2):\n        for col in range(3):\n            base = col + 100\n            show(col)\n            base += row\n            db.Setting = base + n\n\ngrid(d0.Setting)\nshow(5)\n"))
     out.append(("life:triple_loops_call", HDR + "def show(v, w):\n    t = v * 10 + w\n    u = t * 2\n    db.Mode = u + 1\n\ndef cube(n):\n    for a in range(2):\n        for b in range(2):\n            for c in range(2):\n                keep = a * 100 + b * 10 + c\n                other = keep + n\n                show(c, b)\n                db.Setting = keep + other\n\ncube(d0.Setting)\nshow(5, 6)\n"))
     out.append(("life:while_for_call", HDR + "def show(v):\n    t = v + 1\n    db.Mode = t * 3\n\ndef run(n):\n    k = 0\n    while k < 2:\n        k += 1\n        for jj in range(2):\n            held = jj * 10 + k\n            show(jj)\n            db.Setting = held + n\n\nrun(d0.Setting)\nshow(9)\n"))
+    dbody = "a = d0.On\nb = d1.On\nx = (a + b) * (a - b) + a * b\npump.Setting = x\ny = x * 2 + a\npump.On = y\n"
+    for nm_, ctor in (("positional", "VolumePump(d0.Setting + 1)"), ("device_id_kw", "VolumePump(device_id=d0.Setting + 1)"), ("wrapped_generic", "VolumePump(Device(ref_id=d0.Setting + 1))"), ("ref_id_kw", "VolumePump(ref_id=d0.Setting + 1)")):
+        out.append((f"life:device_id_expr:{nm_}", HDR + f"pump = {ctor}\n" + dbody))
     out.append(("life:two_loops_seq", F + "    a = d0.Setting\n    for i in range(2):\n        p = a + i\n        d1.Setting = p\n    b = d2.Setting\n    for k in range(2):\n        q = b + k + a\n        d4.Setting = q\n    db.Setting = a + b + n\n\nf(d3.Setting)\nf(2)\n"))
     return out
 
